@@ -27,6 +27,10 @@ def pyvc_unit(prop, uid, build_registry, targets, timeout_ms=None, tiers=('quick
             out['functions'].append({'target': t, 'engine': 'PYVC', 'status': 'proved' if ok else info['status'] if info['status'] != 'ok' else 'not-proved',
                                      'source': info.get('source'), 'paths': info.get('paths'), 'obligations': nres,
                                      'entry_states': info.get('entry_states'), 'seconds': round(info.get('seconds', 0), 2)})
+            if info['status'] != 'ok' and not info['results']:
+                out['results'].append({'id': '%s.%s.status' % (prop, t.replace('Crypto.', '')), 'kind': 'structure', 'clause': 'function verified',
+                                       'status': 'error' if info['status'] == 'error' else 'undecided', 'backend': '', 'seconds': 0,
+                                       'detail': info.get('reason', ''), 'witness': None, 'target': t})
             for r in info['results']:
                 d = r.as_dict()
                 d['id'] = '%s.%s' % (prop, d['id'])
